@@ -7,6 +7,7 @@ import (
 	"encoding/json"
 	"fmt"
 	"io"
+	"sort"
 	"sync/atomic"
 	"testing/synctest"
 	"time"
@@ -65,6 +66,65 @@ type c17Case struct {
 	Small   bool   `json:"small_memtable"`
 	K       int64  `json:"crash_at_write_op"`
 	Drop    bool   `json:"drop_unsynced"`
+	// Tear > 0: operation K is a file Write of which only a prefix reaches the file before
+	// the world stops (1: one byte, 2: half, 3: all but the last byte).
+	Tear int `json:"torn_write,omitempty"`
+	// Mixed: per-unit loss. Of the units that differ between "all unsynced state kept" and
+	// "all dropped" (each file with an unsynced tail; the directory entries as a whole),
+	// exactly those in Kept keep theirs.
+	Mixed bool     `json:"per_file_loss,omitempty"`
+	Kept  []string `json:"unsynced_kept_for,omitempty"`
+}
+
+// tearFS sits between the fault injector and the strict MemFS: when armed, the next file
+// Write stores only a prefix of its buffer and the world stops.
+type tearFS struct {
+	vfs.FS
+	armed, crashed *atomic.Bool
+	mode           int
+	tornLen        *atomic.Int64
+}
+
+type tearFile struct {
+	vfs.File
+	fs *tearFS
+}
+
+func (t *tearFS) wrap(f vfs.File, err error) (vfs.File, error) {
+	if err != nil || f == nil {
+		return f, err
+	}
+	return &tearFile{f, t}, nil
+}
+func (t *tearFS) Create(name string) (vfs.File, error) { return t.wrap(t.FS.Create(name)) }
+func (t *tearFS) OpenReadWrite(name string, opts ...vfs.OpenOption) (vfs.File, error) {
+	return t.wrap(t.FS.OpenReadWrite(name, opts...))
+}
+func (t *tearFS) ReuseForWrite(oldname, newname string) (vfs.File, error) {
+	return t.wrap(t.FS.ReuseForWrite(oldname, newname))
+}
+
+func (f *tearFile) Write(p []byte) (int, error) {
+	if f.fs.armed.CompareAndSwap(true, false) {
+		n := 0
+		switch {
+		case len(p) < 2:
+			n = -1 // nothing to tear
+		case f.fs.mode == 1:
+			n = 1
+		case f.fs.mode == 2:
+			n = len(p) / 2
+		default:
+			n = len(p) - 1
+		}
+		f.fs.tornLen.Store(int64(n))
+		if n > 0 {
+			f.File.Write(p[:n])
+		}
+		f.fs.crashed.Store(true)
+		select {} // the world stopped inside this Write
+	}
+	return f.File.Write(p)
 }
 
 func c17Id(name string) []byte {
@@ -119,6 +179,7 @@ type c17Cut struct {
 	completed int
 	frozen    bool
 	openErr   string
+	tornLen   int64 // torn-write cases: bytes of the torn Write that reached the file; -1: operation k cannot be torn
 }
 
 // c17Opts: besides pebble's defaults, a configuration with a small memtable and an
@@ -133,7 +194,7 @@ func c17Opts(fs vfs.FS, small bool) *pebble.Options {
 	return o
 }
 
-func c17Execute(h *c17History, k int64, small bool) (cut c17Cut) {
+func c17Execute(h *c17History, k int64, small bool, tear int) (cut c17Cut) {
 	fs := vfs.NewStrictMem()
 	fs.MkdirAll("db", 0o755)
 	if root, err := fs.OpenDir(""); err == nil {
@@ -141,8 +202,9 @@ func c17Execute(h *c17History, k int64, small bool) (cut c17Cut) {
 		root.Close()
 	}
 	cut.fs = fs
-	var cnt atomic.Int64
-	var crashed atomic.Bool
+	var cnt, tornLen atomic.Int64
+	var crashed, armed atomic.Bool
+	tornLen.Store(-1)
 	inj := errorfs.InjectorFunc(func(op errorfs.Op, path string) error {
 		if crashed.Load() {
 			select {} // the world stopped at op k
@@ -150,12 +212,20 @@ func c17Execute(h *c17History, k int64, small bool) (cut c17Cut) {
 		if op.OpKind() == errorfs.OpKindWrite {
 			i := cnt.Add(1) - 1
 			if k >= 0 && i == k {
+				if tear > 0 && op == errorfs.OpFileWrite {
+					armed.Store(true) // the Write itself stops the world (tearFile.Write)
+					return nil
+				}
 				crashed.Store(true)
 				select {}
 			}
 		}
 		return nil
 	})
+	var inner vfs.FS = fs
+	if tear > 0 {
+		inner = &tearFS{FS: fs, armed: &armed, crashed: &crashed, mode: tear, tornLen: &tornLen}
+	}
 	var started, completed atomic.Int32
 	// The history runs in its own goroutine, one call at a time; this goroutine owns
 	// synctest.Wait: after every call it waits until flushes, compactions and the
@@ -170,7 +240,7 @@ func c17Execute(h *c17History, k int64, small bool) (cut c17Cut) {
 			switch {
 			case i == -1:
 				var err error
-				db, err = pebble.Open("db", c17Opts(errorfs.Wrap(fs, inj), small))
+				db, err = pebble.Open("db", c17Opts(errorfs.Wrap(inner, inj), small))
 				if err == nil {
 					cs, err = sp.NewStorage(storage.PortalStorageConfig{StorageCapacityMB: 1, NodeId: c04Nodes["mixed"], NetworkName: "verif"}, db)
 				}
@@ -205,6 +275,7 @@ func c17Execute(h *c17History, k int64, small bool) (cut c17Cut) {
 	}
 	finish := func() {
 		cut.ops, cut.started, cut.completed = cnt.Load(), int(started.Load()), int(completed.Load())
+		cut.tornLen = tornLen.Load()
 	}
 	if !step(-1) {
 		cut.frozen = true
@@ -231,150 +302,337 @@ func c17Execute(h *c17History, k int64, small bool) (cut c17Cut) {
 	return
 }
 
-func c17Check(r *mc.Report, h *c17History, small bool, k int64, drop bool) string {
-	c := c17Case{h.Name, small, k, drop}
-	viol := func(clause, site, detail string) { r.Violation(clause, site, detail, c) }
-	digest := ""
+// c17Tree is a file tree read out of a MemFS: path -> content.
+type c17Tree map[string][]byte
+
+func readTree(fs vfs.FS, dir string, out c17Tree) error {
+	names, err := fs.List(dir)
+	if err != nil {
+		return err
+	}
+	for _, n := range names {
+		p := fs.PathJoin(dir, n)
+		st, err := fs.Stat(p)
+		if err != nil {
+			return err
+		}
+		if st.IsDir() {
+			if err := readTree(fs, p, out); err != nil {
+				return err
+			}
+			continue
+		}
+		f, err := fs.Open(p)
+		if err != nil {
+			return err
+		}
+		data, _ := io.ReadAll(f)
+		f.Close()
+		out[p] = data
+	}
+	return nil
+}
+
+func (t c17Tree) materialize() vfs.FS {
+	fs := vfs.NewMem()
+	fs.MkdirAll("db", 0o755)
+	for p, data := range t {
+		fs.MkdirAll(fs.PathDir(p), 0o755)
+		g, err := fs.Create(p)
+		if err != nil {
+			panic(err)
+		}
+		g.Write(data)
+		g.Sync()
+		g.Close()
+	}
+	return fs
+}
+
+// c17Point freezes one execution at write operation k (optionally tearing it) and recovers
+// from every loss pattern asked for: all unsynced data kept, all dropped, and per-file
+// mixtures (masks over the files that differ between the two). only != nil: just that case.
+func c17Point(r *mc.Report, h *c17History, small bool, k int64, tear int, thorough bool, only *c17Case, each func(c c17Case, digest string)) {
+	base := c17Case{History: h.Name, Small: small, K: k, Tear: tear}
 	msg := inBubble(func() {
-		cut := c17Execute(h, k, small)
+		cut := c17Execute(h, k, small, tear)
 		if !cut.frozen {
-			digest = "not-reached"
+			each(base, "not-reached")
 			return
 		}
-		if drop {
-			cut.fs.ResetToSyncedState()
+		if tear > 0 && cut.tornLen < 0 {
+			each(base, "tear-n/a") // operation k is not a file Write of at least two bytes
+			return
 		}
-		fs2 := vfs.NewMem()
-		if err := copyFS(cut.fs, fs2, ""); err != nil {
+		kept, dropped := c17Tree{}, c17Tree{}
+		if err := readTree(cut.fs, "", kept); err != nil {
 			r.EngineError("copy: " + err.Error())
 			return
 		}
-		db, err := pebble.Open("db", c17Opts(fs2, small))
-		if err != nil {
-			viol("reopen-succeeds", "pebble.Open", fmt.Sprintf("after a crash in put #%d the database does not open: %v", cut.started, err))
+		cut.fs.ResetToSyncedState()
+		if err := readTree(cut.fs, "", dropped); err != nil {
+			r.EngineError("copy: " + err.Error())
 			return
 		}
-		defer func() { synctest.Wait(); db.Close() }()
-		// what is on disk before the store is constructed
-		scanDB := func() (items []kv, rec uint64, has bool) {
-			it, _ := db.NewIter(nil)
-			defer it.Close()
-			for it.First(); it.Valid(); it.Next() {
-				if bytes.Equal(it.Key(), storage.SizeKey) {
-					if len(it.Value()) == 8 {
-						rec, has = binary.BigEndian.Uint64(it.Value()), true
+		// Units of loss. Directory entries are one unit: creations, removals and renames of one
+		// directory reach the disk in order (a journalled directory), so either all unsynced name
+		// changes are kept or none. File data is lost per file: a file present on both sides whose
+		// synced content is a proper prefix of its current content keeps or loses its unsynced tail
+		// independently. (A name whose two contents are not prefix-related was renamed over and
+		// belongs to the directory unit.)
+		const dirUnit = "<directory entries>"
+		var differ []string
+		nameLevel := map[string]bool{}
+		for p, a := range kept {
+			b, ok := dropped[p]
+			switch {
+			case ok && bytes.Equal(a, b):
+			case ok && len(b) < len(a) && bytes.Equal(a[:len(b)], b):
+				differ = append(differ, p)
+			default:
+				nameLevel[p] = true
+			}
+		}
+		for p := range dropped {
+			if _, ok := kept[p]; !ok {
+				nameLevel[p] = true
+			}
+		}
+		sort.Strings(differ)
+		if len(nameLevel) > 0 {
+			differ = append(differ, dirUnit)
+		}
+		r.Max("max_units_with_unsynced_state_at_a_cut", int64(len(differ)))
+		recoverFrom := func(c c17Case, t c17Tree) {
+			d := ""
+			m := recoverPanic(func() { d = c17Recover(r, c, h, cut, t.materialize()) })
+			if m != "" {
+				r.Violation("no-panic", "ContentStorage", "panic during recovery: "+m, c)
+			}
+			each(c, d)
+		}
+		mix := func(keep map[string]bool) c17Tree {
+			t := c17Tree{}
+			for p, b := range dropped {
+				t[p] = b
+			}
+			if keep[dirUnit] {
+				for p := range nameLevel {
+					if a, ok := kept[p]; ok {
+						t[p] = a
+					} else {
+						delete(t, p) // its removal (or renaming away) is what was kept
 					}
-					continue
 				}
-				items = append(items, kv{append([]byte{}, it.Key()...), append([]byte{}, it.Value()...)})
+			}
+			for _, p := range differ {
+				if keep[p] && p != dirUnit {
+					t[p] = kept[p]
+				}
+			}
+			return t
+		}
+		if only != nil {
+			switch {
+			case only.Mixed:
+				keep := map[string]bool{}
+				for _, p := range only.Kept {
+					keep[p] = true
+				}
+				recoverFrom(*only, mix(keep))
+			case only.Drop:
+				recoverFrom(*only, dropped)
+			default:
+				recoverFrom(*only, kept)
 			}
 			return
 		}
-		before, recBefore, _ := scanDB()
-		cs, err := sp.NewStorage(storage.PortalStorageConfig{StorageCapacityMB: 1, NodeId: c04Nodes["mixed"], NetworkName: "verif"}, db)
-		if err != nil {
-			viol("reopen-succeeds", "NewStorage", fmt.Sprintf("after a crash in put #%d the store does not open: %v", cut.started, err))
+		recoverFrom(base, kept)
+		if tear > 0 && !thorough {
+			return // a torn Write only differs from the plain cut while its file's unsynced data is kept
+		}
+		if tear == 0 {
+			c := base
+			c.Drop = true
+			recoverFrom(c, dropped)
+		}
+		// per-file mixtures: all masks when few files differ (thorough), otherwise the masks that
+		// deviate from one of the two extremes in exactly one file
+		n := len(differ)
+		if n < 2 {
 			return
 		}
-		synctest.Wait()
-		after, recAfter, hasRec := scanDB()
-		// every item present was put under that id at or before the cut
-		putUnder := map[string][][]byte{}
-		for i := 0; i < cut.started && i < len(h.Ops); i++ {
-			kx := string(distKey(c04Nodes["mixed"], c17Id(h.Ops[i].Id)))
-			putUnder[kx] = append(putUnder[kx], c17Val(h.Ops[i], i))
-		}
-		for _, it := range after {
-			ok := false
-			for _, v := range putUnder[string(it.K)] {
-				ok = ok || bytes.Equal(v, it.V)
+		var masks []uint
+		if thorough && n <= 5 {
+			for m := uint(1); m < (1<<n)-1; m++ {
+				masks = append(masks, m)
 			}
-			if !ok {
-				viol("items-identical-to-a-put", "ContentStorage", fmt.Sprintf("after recovery the item at distance %s holds %s, which was never put under that id before the cut", hx(it.K[:8]), hx(it.V)))
-				return
-			}
-		}
-		for i := 0; i < cut.started && i < len(h.Ops); i++ {
-			got, err := cs.Get(nil, c17Id(h.Ops[i].Id))
-			if err != nil && !isNotFound(err) {
-				viol("get-after-recovery", "ContentStorage.Get", err.Error())
-				return
-			}
-			if err == nil {
-				ok := false
-				for _, v := range putUnder[string(distKey(c04Nodes["mixed"], c17Id(h.Ops[i].Id)))] {
-					ok = ok || bytes.Equal(v, got)
-				}
-				if !ok {
-					viol("items-identical-to-a-put", "ContentStorage.Get", fmt.Sprintf("Get(%s) after recovery returned bytes never put under that id", h.Ops[i].Id))
-					return
+		} else {
+			full := uint(1<<n) - 1
+			for i := 0; i < n; i++ {
+				masks = append(masks, 1<<i)
+				if n > 2 {
+					masks = append(masks, full&^(1<<i))
 				}
 			}
-		}
-		A := held(after)
-		if (hasRec && recAfter < A) || (!hasRec && A > 0) {
-			viol("persisted-usage-not-below-present", "persisted record", fmt.Sprintf("after recovery the persisted usage is %d (present=%v) but %d bytes are present", recAfter, hasRec, A))
-		}
-		if mem := sp.VerifSize(cs); mem < A {
-			viol("persisted-usage-not-below-present", "in-memory counter", fmt.Sprintf("after recovery the in-memory usage is %d but %d bytes are present", mem, A))
-		}
-		capB := uint64(c05Cap)
-		if recBefore > capB {
-			freed := int64(held(before)) - int64(A)
-			if freed < int64(capB/20) && A != 0 {
-				viol("over-capacity-pruned-on-open", "NewStorage", fmt.Sprintf("persisted usage %d > capacity at the cut, but opening freed only %d bytes and %d remain", recBefore, freed, A))
+			if n > 2 {
+				r.Count("cuts_with_single_deviation_masks_only", 1)
 			}
 		}
-		// radius
-		radius := cs.Radius()
-		over95 := recBefore > uint64(float64(capB)*0.95)
-		switch {
-		case !over95:
-			if !radius.Eq(storage.MaxDistance) {
-				viol("radius-maximum-below-95-percent", "NewStorage", fmt.Sprintf("persisted usage %d <= 95%% of capacity but the radius after opening is %s", recBefore, radius.Hex()))
-			}
-		case len(after) == 0:
-			// the usage figure said > 95% but opening pruned everything: an empty store is not
-			// "more than 95% full" under any reading, and there is no retained item to derive from
-			r.Count("over95_but_empty_after_open", 1)
-			if !radius.Eq(storage.MaxDistance) {
-				viol("radius-maximum-below-95-percent", "NewStorage:empty-store", fmt.Sprintf("persisted usage %d at the cut, nothing retained after opening, radius %s (every later put is refused)", recBefore, radius.Hex()))
-			}
-		default:
-			far := after[len(after)-1].K
-			le := new(uint256.Int)
-			le.UnmarshalSSZ(far)
-			if !radius.Eq(beUint(far)) && !radius.Eq(le) {
-				viol("radius-from-farthest-retained-above-95-percent", "NewStorage", fmt.Sprintf("persisted usage %d > 95%% of capacity; farthest retained key %s; radius after opening %s", recBefore, hx(far), radius.Hex()))
-			}
-		}
-		// further operations
-		for j, n := range []int{100, 30_000} {
-			id := c17Id(fmt.Sprintf("after-%d", j))
-			v := fillBytes(n, byte(0x70+j))
-			if err := cs.Put(nil, id, v); err == nil {
-				synctest.Wait()
-				got, gerr := cs.Get(nil, id)
-				items, rec, has := scanDB()
-				if gerr == nil && !bytes.Equal(got, v) {
-					viol("further-put-get", "ContentStorage.Get", "a put after recovery reads back differently")
-				}
-				if has && rec < held(items) {
-					viol("persisted-usage-not-below-present", "persisted record (after further put)", fmt.Sprintf("usage %d < held %d", rec, held(items)))
+		for _, m := range masks {
+			c := base
+			c.Mixed = true
+			keep := map[string]bool{}
+			for i, p := range differ {
+				if m&(1<<i) != 0 {
+					keep[p] = true
+					c.Kept = append(c.Kept, p)
 				}
 			}
+			recoverFrom(c, mix(keep))
 		}
-		digest = fmt.Sprintf("started=%d completed=%d items=%d rec=%d over95=%v radiusMax=%v", cut.started, cut.completed, len(after), recAfter, over95, radius.Eq(storage.MaxDistance))
 	})
 	if msg != "" {
-		viol("no-panic", "ContentStorage", "panic during recovery: "+msg)
+		r.Violation("no-panic", "ContentStorage", "panic: "+msg, base)
 	}
+}
+
+func recoverPanic(f func()) (msg string) {
+	defer func() {
+		if rec := recover(); rec != nil {
+			msg = fmt.Sprintf("%v @ %s", rec, repoFrame())
+		}
+	}()
+	f()
+	return
+}
+
+// c17Recover reopens the store on fs2 and evaluates the recovery clauses (inside the caller's bubble).
+func c17Recover(r *mc.Report, c c17Case, h *c17History, cut c17Cut, fs2 vfs.FS) (digest string) {
+	viol := func(clause, site, detail string) { r.Violation(clause, site, detail, c) }
+	small := c.Small
+	db, err := pebble.Open("db", c17Opts(fs2, small))
+	if err != nil {
+		viol("reopen-succeeds", "pebble.Open", fmt.Sprintf("after a crash in put #%d the database does not open: %v", cut.started, err))
+		return
+	}
+	defer func() { synctest.Wait(); db.Close() }()
+	// what is on disk before the store is constructed
+	scanDB := func() (items []kv, rec uint64, has bool) {
+		it, _ := db.NewIter(nil)
+		defer it.Close()
+		for it.First(); it.Valid(); it.Next() {
+			if bytes.Equal(it.Key(), storage.SizeKey) {
+				if len(it.Value()) == 8 {
+					rec, has = binary.BigEndian.Uint64(it.Value()), true
+				}
+				continue
+			}
+			items = append(items, kv{append([]byte{}, it.Key()...), append([]byte{}, it.Value()...)})
+		}
+		return
+	}
+	before, recBefore, _ := scanDB()
+	cs, err := sp.NewStorage(storage.PortalStorageConfig{StorageCapacityMB: 1, NodeId: c04Nodes["mixed"], NetworkName: "verif"}, db)
+	if err != nil {
+		viol("reopen-succeeds", "NewStorage", fmt.Sprintf("after a crash in put #%d the store does not open: %v", cut.started, err))
+		return
+	}
+	synctest.Wait()
+	after, recAfter, hasRec := scanDB()
+	// every item present was put under that id at or before the cut
+	putUnder := map[string][][]byte{}
+	for i := 0; i < cut.started && i < len(h.Ops); i++ {
+		kx := string(distKey(c04Nodes["mixed"], c17Id(h.Ops[i].Id)))
+		putUnder[kx] = append(putUnder[kx], c17Val(h.Ops[i], i))
+	}
+	for _, it := range after {
+		ok := false
+		for _, v := range putUnder[string(it.K)] {
+			ok = ok || bytes.Equal(v, it.V)
+		}
+		if !ok {
+			viol("items-identical-to-a-put", "ContentStorage", fmt.Sprintf("after recovery the item at distance %s holds %s, which was never put under that id before the cut", hx(it.K[:8]), hx(it.V)))
+			return
+		}
+	}
+	for i := 0; i < cut.started && i < len(h.Ops); i++ {
+		got, err := cs.Get(nil, c17Id(h.Ops[i].Id))
+		if err != nil && !isNotFound(err) {
+			viol("get-after-recovery", "ContentStorage.Get", err.Error())
+			return
+		}
+		if err == nil {
+			ok := false
+			for _, v := range putUnder[string(distKey(c04Nodes["mixed"], c17Id(h.Ops[i].Id)))] {
+				ok = ok || bytes.Equal(v, got)
+			}
+			if !ok {
+				viol("items-identical-to-a-put", "ContentStorage.Get", fmt.Sprintf("Get(%s) after recovery returned bytes never put under that id", h.Ops[i].Id))
+				return
+			}
+		}
+	}
+	A := held(after)
+	if (hasRec && recAfter < A) || (!hasRec && A > 0) {
+		viol("persisted-usage-not-below-present", "persisted record", fmt.Sprintf("after recovery the persisted usage is %d (present=%v) but %d bytes are present", recAfter, hasRec, A))
+	}
+	if mem := sp.VerifSize(cs); mem < A {
+		viol("persisted-usage-not-below-present", "in-memory counter", fmt.Sprintf("after recovery the in-memory usage is %d but %d bytes are present", mem, A))
+	}
+	capB := uint64(c05Cap)
+	if recBefore > capB {
+		freed := int64(held(before)) - int64(A)
+		if freed < int64(capB/20) && A != 0 {
+			viol("over-capacity-pruned-on-open", "NewStorage", fmt.Sprintf("persisted usage %d > capacity at the cut, but opening freed only %d bytes and %d remain", recBefore, freed, A))
+		}
+	}
+	// radius
+	radius := cs.Radius()
+	over95 := recBefore > uint64(float64(capB)*0.95)
+	switch {
+	case !over95:
+		if !radius.Eq(storage.MaxDistance) {
+			viol("radius-maximum-below-95-percent", "NewStorage", fmt.Sprintf("persisted usage %d <= 95%% of capacity but the radius after opening is %s", recBefore, radius.Hex()))
+		}
+	case len(after) == 0:
+		// the usage figure said > 95% but opening pruned everything: an empty store is not
+		// "more than 95% full" under any reading, and there is no retained item to derive from
+		r.Count("over95_but_empty_after_open", 1)
+		if !radius.Eq(storage.MaxDistance) {
+			viol("radius-maximum-below-95-percent", "NewStorage:empty-store", fmt.Sprintf("persisted usage %d at the cut, nothing retained after opening, radius %s (every later put is refused)", recBefore, radius.Hex()))
+		}
+	default:
+		far := after[len(after)-1].K
+		le := new(uint256.Int)
+		le.UnmarshalSSZ(far)
+		if !radius.Eq(beUint(far)) && !radius.Eq(le) {
+			viol("radius-from-farthest-retained-above-95-percent", "NewStorage", fmt.Sprintf("persisted usage %d > 95%% of capacity; farthest retained key %s; radius after opening %s", recBefore, hx(far), radius.Hex()))
+		}
+	}
+	// further operations
+	for j, n := range []int{100, 30_000} {
+		id := c17Id(fmt.Sprintf("after-%d", j))
+		v := fillBytes(n, byte(0x70+j))
+		if err := cs.Put(nil, id, v); err == nil {
+			synctest.Wait()
+			got, gerr := cs.Get(nil, id)
+			items, rec, has := scanDB()
+			if gerr == nil && !bytes.Equal(got, v) {
+				viol("further-put-get", "ContentStorage.Get", "a put after recovery reads back differently")
+			}
+			if has && rec < held(items) {
+				viol("persisted-usage-not-below-present", "persisted record (after further put)", fmt.Sprintf("usage %d < held %d", rec, held(items)))
+			}
+		}
+	}
+	digest = fmt.Sprintf("started=%d completed=%d items=%d rec=%d over95=%v radiusMax=%v", cut.started, cut.completed, len(after), recAfter, over95, radius.Eq(storage.MaxDistance))
 	return digest
 }
 
 func runC17(r *mc.Report, e *Env) {
-	r.Rule = "one case = (history, write-op index k, keep|drop unsynced): run the real store on pebble over a strict in-memory FS, freeze every FS operation from the k-th write-kind operation on, copy the tree, reopen with pebble.Open + NewStorage, evaluate the recovery clauses, then two further puts; distinct = distinct (puts started/completed, items, usage, radius) observations"
-	r.Assume("crash model: fail-stop at file-system operation boundaries; unsynced data is either all kept or all dropped (pebble's strict MemFS); no torn writes inside one Write")
+	r.Rule = "one case = (history, write-op index k, whole | torn to 1 byte | half | all but one byte, loss pattern over the files with unsynced state: all kept | all dropped | per-file mixtures): run the real store on pebble over a strict in-memory FS, freeze every FS operation from the k-th write-kind operation on, copy the tree, reopen with pebble.Open + NewStorage, evaluate the recovery clauses, then two further puts; distinct = distinct (puts started/completed, items, usage, radius) observations"
+	r.Assume("crash model: fail-stop at file-system operation boundaries, or inside one file Write after a prefix of 1 byte / half / all but one byte of its buffer; unsynced state (pebble's strict MemFS) is lost per unit — each file's unsynced tail on its own, the unsynced directory entries (creations, removals, renames) together, in order: all kept, all dropped, and mixtures (thorough: every subset when at most 5 units differ, otherwise and in the quick tier the subsets one unit away from either extreme); quick tier tears with all unsynced data kept only")
 	r.Assume("either byte order of the farthest retained key is accepted as the re-derived radius (which one is C06's question)")
 	for hi := range c17Histories {
 		for sh := 0; sh < c17Shards; sh++ {
@@ -386,7 +644,7 @@ func runC17(r *mc.Report, e *Env) {
 				var n1, n2 int64
 				for try := 0; try < 3; try++ { // fault-free runs: how many write operations are there
 					var n int64
-					inBubble(func() { n = c17Execute(h, -1, small).ops })
+					inBubble(func() { n = c17Execute(h, -1, small, 0).ops })
 					if try == 0 || n < n2 {
 						n2 = n
 					}
@@ -415,14 +673,28 @@ func runC17(r *mc.Report, e *Env) {
 					if e.Expired() {
 						return
 					}
-					for _, drop := range []bool{false, true} {
-						d := c17Check(r, h, small, k, drop)
-						if d == "not-reached" {
-							r.EngineError(fmt.Sprintf("history %s: crash point %d was not reached on replay (nondeterministic operation count)", h.Name, k))
-							continue
-						}
-						r.Exec(h.Name + "|" + d)
-						r.Count("recoveries", 1)
+					for tear := 0; tear <= 3; tear++ {
+						c17Point(r, h, small, k, tear, e.Thorough(), nil, func(c c17Case, d string) {
+							switch {
+							case d == "not-reached":
+								if tear == 0 {
+									r.EngineError(fmt.Sprintf("history %s: crash point %d was not reached on replay (nondeterministic operation count)", h.Name, k))
+								}
+							case d == "tear-n/a":
+								r.Count("cuts_whose_operation_cannot_be_torn", 1)
+							default:
+								r.Exec(h.Name + "|" + d)
+								r.Count("recoveries", 1)
+								switch {
+								case c.Tear > 0 && c.Mixed:
+									r.Count("recoveries_torn_write_and_per_file_loss", 1)
+								case c.Tear > 0:
+									r.Count("recoveries_torn_write", 1)
+								case c.Mixed:
+									r.Count("recoveries_per_file_loss", 1)
+								}
+							}
+						})
 					}
 				}
 			}
@@ -438,7 +710,7 @@ func replayC17(r *mc.Report, e *Env, raw json.RawMessage) {
 	}
 	for i := range c17Histories {
 		if c17Histories[i].Name == c.History {
-			fmt.Println("outcome:", c17Check(r, &c17Histories[i], c.Small, c.K, c.Drop))
+			c17Point(r, &c17Histories[i], c.Small, c.K, c.Tear, true, &c, func(_ c17Case, d string) { fmt.Println("outcome:", d) })
 		}
 	}
 }
